@@ -7,6 +7,6 @@ import (
 )
 
 func main() {
-	run := lib.Start("C10", "generated stream scripts (1-4 streams quick / 1-8 thorough; HEADERS, DATA of sizes 0..70000 incl. > MAX_FRAME_SIZE, padding 1..255, END_STREAM, trailers, RST_STREAM, PUSH_PROMISE, PRIORITY) run between a raw-frame client and a raw-frame TLS server through h2.Config.Proxy; initial windows from {10, 50, 200, 5000, 65535}; receivers grant by policy greedy / stingy (1-100 octets at a time) / bursty / connection-first / stream-first; SETTINGS changes mid-flight (INITIAL_WINDOW_SIZE up and down to 1, MAX_FRAME_SIZE 16384..65536, HEADER_TABLE_SIZE); each endpoint logs the logical elements it emits per stream (H, D, T, R, PP, PR) and decodes what it receives with its own HPACK decoder in wire order; per stream the receiver sequence must equal the sender sequence after merging adjacent DATA (bytes, END_STREAM placement, header lists incl. order, RST code, PUSH_PROMISE); SETTINGS and their ACKs, PING payloads and GOAWAY must be relayed; after the script both receivers grant everything and every logged element must arrive (no stranding); race detector on; distinct = (streams, initial windows, policies, feature set) signatures")
+	run := lib.Start("C10", "generated stream scripts (1-4 streams quick / 1-8 thorough; HEADERS, DATA of sizes 0..70000 incl. > MAX_FRAME_SIZE, padding 1..255, END_STREAM, trailers, RST_STREAM, PUSH_PROMISE, PRIORITY) run between a raw-frame client and a raw-frame TLS server through h2.Config.Proxy - one script in twelve through a martian proxy that intercepts a CONNECT, negotiates h2 and hands the session to the relay, after a quiet period longer than that proxy's idle and handshake limits; initial windows from {10, 50, 200, 5000, 65535}; receivers grant by policy greedy / stingy (1-100 octets at a time) / bursty / connection-first / stream-first; SETTINGS changes mid-flight (INITIAL_WINDOW_SIZE up and down to 1, MAX_FRAME_SIZE 16384..65536, HEADER_TABLE_SIZE); each endpoint logs the logical elements it emits per stream (H, D, T, R, PP, PR) and decodes what it receives with its own HPACK decoder in wire order; per stream the receiver sequence must equal the sender sequence after merging adjacent DATA (bytes, END_STREAM placement, header lists incl. order, RST code, PUSH_PROMISE); SETTINGS and their ACKs, PING payloads and GOAWAY must be relayed; after the script both receivers grant everything and every logged element must arrive (no stranding); race detector on; distinct = (streams, initial windows, policies, feature set) signatures")
 	h2rig.Main(run, "C10")
 }
